@@ -53,24 +53,6 @@ BOUNDS_HINTS = {"clamp": "clamp_to_bounds", "adjust": "adjust_exclusion_bounds",
 # ---------------------------------------------------------------------------------------------
 # anchors bound by role (the name is only a hint)
 # ---------------------------------------------------------------------------------------------
-def find_calc(prog: Program) -> Any:
-    """The target sweep: the method calculate_target_power hands (bucket, system bounds) to - a
-    helper of the same class, reached from calculate_target_power, with one top-level proposal loop."""
-    ct = prog.func(CTP)
-    cands = []
-    for h in reach(prog, ct)[1:]:
-        body = [x for x in h.node.body if isinstance(x, ast.For)]
-        if h.cls is ct.cls and len(body) == 1 and len(h.params) == 3:
-            cands.append(h)
-    named = [h for h in cands if h.name == CALC_HINT]
-    if named:
-        return named[0]
-    if len(cands) == 1:
-        return cands[0]
-    raise AnalysisError(f"{ct.qual}: no helper plays the role of the target sweep "
-                        f"({len(cands)} candidates with one proposal loop over (bucket, system bounds))")
-
-
 def bounds_fn(prog: Program, role: str) -> Any:
     """clamp / adjust / overlap function of the _bounds module: by name, else by what it computes on a
     probe without exclusion zone (clamp: 4 parameters; adjust returns the range, overlap two booleans)."""
@@ -119,12 +101,14 @@ OWN = 5  # the requesting actor's priority in the abstract runs
 
 
 def calc_sweep(prog: Program) -> Sweep:
-    fn = find_calc(prog)
-    if len(fn.params) != 3:
-        raise AnalysisError(f"{fn.qual}: expected (self, proposals, system_bounds)")
-    sw = sweep_roles(prog, fn, 2, {fn.params[1]: []})
+    ct = prog.func(CTP)
+    if len(ct.params) != 5 or ct.cls is None:
+        raise AnalysisError(f"{ct.qual}: expected (self, component_ids, proposal, system_bounds, must_return_power)")
+    # entered through the public method (no new proposal, existing bucket): the target sweep is
+    # whatever function reached from there holds the loop over the sorted proposals
+    sw = sweep_roles(prog, ct, ct.params[3], {ct.params[1]: "ids", ct.params[2]: None, ct.params[4]: False})
     if sw.T is None:
-        raise AnalysisError(f"{fn.qual}: cannot bind the running target of the sweep")
+        raise AnalysisError(f"{sw.fn.qual}: cannot bind the running target of the sweep")
     return sw
 
 
@@ -132,7 +116,7 @@ def stat_sweep(prog: Program) -> Sweep:
     fn = prog.func(STAT)
     if len(fn.params) != 4:
         raise AnalysisError(f"{fn.qual}: expected (self, component_ids, priority, system_bounds)")
-    return sweep_roles(prog, fn, 3, {fn.params[1]: "ids", fn.params[2]: OWN})
+    return sweep_roles(prog, fn, fn.params[3], {fn.params[1]: "ids", fn.params[2]: OWN})
 
 
 def admissible_alts(it: OrderInterp, c: Any, L: Any, U: Any, excl: Any) -> list[list[tuple[str, Any, Any]]]:
@@ -224,10 +208,9 @@ def check_keep(run: Run, prog: Program) -> None:
 # ---------------------------------------------------------------------------------------------
 def check_sib(run: Run, prog: Program) -> None:
     swc, sws = calc_sweep(prog), stat_sweep(prog)
-    calc, stat = swc.fn, sws.fn
+    calc, stat = swc.entry, sws.entry
     analysed_reach(run, prog, calc)
     analysed_reach(run, prog, stat)
-    prio = stat.params[2]
     stepc = step_function(swc, "step_calc", [swc.L, swc.U, STOPPED])
     steps = step_function(sws, "step_status", [sws.L, sws.U, STOPPED])
     it = LinInterp(prog, prog.module(MAT))
@@ -244,7 +227,7 @@ def check_sib(run: Run, prog: Program) -> None:
         ctx.update(L=L, U=U, excl=excl, p=p)
 
     def status_frame() -> dict[str, Any]:
-        return sws.frame(**{sws.L: ctx["L"], sws.U: ctx["U"], sws.X: ctx["excl"], prio: OWN, sws.pv: ctx["p"]})
+        return sws.frame(**{sws.L: ctx["L"], sws.U: ctx["U"], sws.X: ctx["excl"], sws.pv: ctx["p"]})
 
     # ---- (a) strictly higher priority: both sweeps narrow alike
     def make_args() -> dict[str, Any]:
@@ -293,7 +276,7 @@ def check_sib(run: Run, prog: Program) -> None:
             so = sws.self_obj()
             assert so is not None
             so.fields["_component_buckets"] = {"ids": [ctx["p"]]}
-            return {stat.params[0]: so, stat.params[1]: "ids", prio: OWN, sws.sys_param: sysb}
+            return sws.enter(it, sysb, so)
 
         def post_cut(res: Any, what: str = what) -> Any:
             seq = res[0] if isinstance(res, tuple) and len(res) == 1 else None
@@ -327,17 +310,11 @@ def check_sib(run: Run, prog: Program) -> None:
         excl = mk_excl(it, it.choose(2, "system exclusion bounds present") == 1, ("sel", "seu"))
         sysb = Obj("SystemBounds", inclusion_bounds=Obj("Bounds", lower=sl, upper=su), exclusion_bounds=excl)
         ctx.update(sysb=sysb, sexcl=excl)
-        args = swc.frame(**{calc.params[1]: [], swc.sys_param: sysb})
-        for v in swc.svars:
-            args.pop(v, None)
-        return args
+        return swc.enter(it, sysb)
 
     def post_sys(res: Any) -> Any:
         zero = it.globals["__ZERO__"]
-        args = sws.frame(**{stat.params[1]: "ids", prio: OWN, sws.sys_param: ctx["sysb"]})
-        for v in sws.svars:
-            args.pop(v, None)
-        res2 = it.call_node(pros, args)
+        res2 = it.call_node(pros, sws.enter(it, ctx["sysb"]))
         if not (isinstance(res2, tuple) and len(res2) == 3):
             return ("shape", f"get_status does not reach its sweep with inclusion bounds present ({res2!r})")
         bad = []
@@ -533,7 +510,7 @@ def check_report(run: Run, prog: Program) -> None:
 
     # ---- get_status hands out the swept bounds together with the system exclusion zone
     sws = stat_sweep(prog)
-    st = sws.fn
+    st = sws.entry
     if "bounds" not in rcls.methods:
         raise AnalysisError(f"{rcls.qual}: the public `bounds` of the report are gone")
     prop = rcls.methods["bounds"]
@@ -569,13 +546,9 @@ def check_report(run: Run, prog: Program) -> None:
         inc = rep.fields.get("_inclusion_bounds")
         if not (isinstance(inc, Obj) and {"lower", "upper"} <= set(inc.fields)):
             return ("bad", [f"the report's inclusion bounds are {inc!r}"])
-        args = sws.frame(**{st.params[1]: "ids", st.params[2]: OWN, st.params[3]: ctx["sysb"]})
-        args[st.params[0]] = ctx["so"]
-        for v in sws.svars:
-            args.pop(v, None)
-        L, U, X = it2.call_node(pros, args)
+        L, U, X = it2.call_node(pros, sws.enter(it2, ctx["sysb"], ctx["so"]))
         for p in ctx["props"]:
-            fr = sws.frame(**{sws.L: L, sws.U: U, sws.X: X, st.params[2]: OWN, sws.pv: p})
+            fr = sws.frame(ctx["so"], **{sws.L: L, sws.U: U, sws.X: X, sws.pv: p})
             L, U, _stop = it2.call_node(steps, fr)
         bad = []
         if not (_same(it2, inc.fields["lower"], L) and _same(it2, inc.fields["upper"], U)):
@@ -602,14 +575,10 @@ def check_store(run: Run, prog: Program) -> None:
        C04.RESULT the freshly computed target is returned unless it equals the remembered one and the
                   caller did not insist (only then may the result be None)."""
     ct = prog.func(CTP)
-    calc = find_calc(prog)
-    for h in reach(prog, ct):
-        if h is not calc and h not in reach(prog, calc):
-            run.analysed(h.qual)
-    if len(ct.params) != 5 or ct.cls is None:
-        raise AnalysisError(f"{ct.qual}: expected (self, component_ids, proposal, system_bounds, must_return_power)")
+    swc = calc_sweep(prog)
+    analysed_reach(run, prog, ct)
     it = StoreInterp(prog, prog.module(MAT))
-    it.stub = calc.name
+    it.loop, it.target_name = swc.loop, swc.T
     ctx: dict[str, Any] = {}
     scenarios = ["first proposal of the group", "replaces the actor's previous proposal",
                  "joins another actor's proposal", "no new proposal, bucket exists"]
@@ -645,17 +614,12 @@ def check_store(run: Run, prog: Program) -> None:
     def post(res: Any) -> Any:
         p = ctx["p"]
         out: dict[str, Any] = {"store": None, "result": None}
-        if len(it.stub_calls) != 1:
-            out["store"] = ("bad", [f"the target is computed {len(it.stub_calls)} time(s) in one call"])
+        if len(it.visits) != 1:
+            out["store"] = ("bad", [f"the proposals are swept {len(it.visits)} time(s) in one call"])
             return out
         if p is not None:
-            pos, kw = it.stub_calls[0]
-            bucket = pos[0] if pos else kw.get(calc.params[1])
-            if not isinstance(bucket, (set, frozenset, list, tuple)):
-                out["store"] = ("shape", f"the sweep is run over {bucket!r}, not over a bucket of proposals")
-                return out
-            members = list(bucket.objs.values()) if hasattr(bucket, "objs") else list(bucket)
-            if not any(it.key(x) == it.key(p) for x in members if isinstance(x, Obj)) and it.key(p) not in bucket:
+            members = it.visits[0]
+            if not any(it.key(x) == it.key(p) for x in members if isinstance(x, Obj)):
                 out["store"] = ("bad", ["the proposal handed to calculate_target_power is not in the bucket the "
                                         "sweep is run over: its bounds and preference are dropped (a proposal of this "
                                         "shape counts as a withdrawal), so lower priorities are no longer restricted "
@@ -699,8 +663,8 @@ def check_order(run: Run, prog: Program) -> None:
     """C04.DESC  both sweeps visit the proposals from the highest to the lowest priority: the iterable
     of the proposal loop, evaluated on a scrambled bucket of three priorities, is descending."""
     for sw in (calc_sweep(prog), stat_sweep(prog)):
-        fn = sw.fn
-        run.analysed(fn.qual)
+        fn = sw.entry
+        analysed_reach(run, prog, fn)
         it = LinInterp(prog, prog.module(MAT))
         visit = synth("visit_order", list(sw.pro) + [ast.Assign(
             targets=[ast.Name(id="_visit_order", ctx=ast.Store())], value=sw.loop.iter)], ["_visit_order"])
@@ -717,12 +681,13 @@ def check_order(run: Run, prog: Program) -> None:
             so = sw.self_obj()
             assert so is not None
             so.fields["_component_buckets"] = {"ids": list(props)}
-            args: dict[str, Any] = {fn.params[0]: so, sw.sys_param: sysb}
-            if fn.name == "get_status":
-                args.update({fn.params[1]: "ids", fn.params[2]: 0})
-            else:
-                args[fn.params[1]] = list(props)
-            return args
+            over: dict[str, Any] = {}
+            for k, v in sw.entry_extra.items():
+                if isinstance(v, list):
+                    over[k] = list(props)       # the bucket handed to the target sweep
+                elif v == OWN and not isinstance(v, bool):
+                    over[k] = 0                 # asking actor below every proposal
+            return sw.enter(it, sysb, so, **over)
 
         def post(res: Any, ctx: dict[str, Any] = ctx) -> Any:
             seq = res[0] if isinstance(res, tuple) and len(res) == 1 else None
@@ -808,10 +773,11 @@ def structural_controls(prog: Program) -> list[tuple[str, str, str, str, str]]: 
 
     # 2. the priority cut of get_status loses / gains the equal priority
     edits = []
+    prio_name = next((k for k, v in sws.base.items() if v == OWN and not isinstance(v, bool)), sws.entry.params[2])
     for c in compares(_scope(prog, sws) + [sws.loop.iter] + list(sws.pro)):
         for i, a, _op, b in compare_pairs(c):
             for x, y in ((a, b), (b, a)):
-                if isinstance(x, ast.Attribute) and x.attr == "priority" and _is_name(y, sws.fn.params[2]) and not edits:
+                if isinstance(x, ast.Attribute) and x.attr == "priority" and _is_name(y, prio_name) and not edits:
                     t = flip_strict(c, i)
                     if t:
                         edits.append((c, t))
@@ -907,7 +873,7 @@ def structural_controls(prog: Program) -> list[tuple[str, str, str, str, str]]: 
 
     # 10. the changed / unchanged test of the result is inverted
     edits = []
-    fresh = {t.id for n in walk_no_nested(ct.node) if isinstance(n, ast.Assign) and isinstance(n.value, ast.Call)
+    fresh = ({swc.T} if swc.fn.node is ct.node else set()) | {t.id for n in walk_no_nested(ct.node) if isinstance(n, ast.Assign) and isinstance(n.value, ast.Call)
              and isinstance(n.value.func, ast.Attribute) and n.value.func.attr == swc.fn.name
              for t in n.targets if isinstance(t, ast.Name)}  # locals that receive the sweep's result
     for by_state in (True, False):
